@@ -44,7 +44,53 @@ func (fb *fileContext) File() *descriptorpb.FileDescriptorProto {
 		fb.fdp.SourceCodeInfo.Location = append(fb.fdp.SourceCodeInfo.Location, loc)
 	}
 
+	for _, msg := range fb.fdp.MessageType {
+		qualifyShadowedTypeNames(fb.fdp.GetPackage(), nil, msg)
+	}
+
 	return fb.fdp
+}
+
+// qualifyShadowedTypeNames makes the references to inline (nested) types
+// absolute where protobuf's scoping rules would otherwise resolve them to a
+// different type. Inline types are referenced relative to the package
+// ("Outer.Inner"), and the linker resolves the first component from the
+// innermost enclosing scope outwards, so a nested type named like the top-level
+// message (Foo { field foo object {...} }) captures every such reference made
+// from within its parent.
+func qualifyShadowedTypeNames(pkg string, scope []*descriptorpb.DescriptorProto, msg *descriptorpb.DescriptorProto) {
+	scope = append(scope, msg)
+	for _, field := range msg.Field {
+		name := field.GetTypeName()
+		first, _, nested := strings.Cut(name, ".")
+		if !nested || first == "" {
+			// scalar, absolute (leading dot) or a map entry of this message
+			continue
+		}
+		for _, enclosing := range scope {
+			if declaresNested(enclosing, first) {
+				field.TypeName = gl.Ptr("." + pkg + "." + name)
+				break
+			}
+		}
+	}
+	for _, nested := range msg.NestedType {
+		qualifyShadowedTypeNames(pkg, scope, nested)
+	}
+}
+
+func declaresNested(msg *descriptorpb.DescriptorProto, name string) bool {
+	for _, nested := range msg.NestedType {
+		if nested.GetName() == name {
+			return true
+		}
+	}
+	for _, nested := range msg.EnumType {
+		if nested.GetName() == name {
+			return true
+		}
+	}
+	return false
 }
 
 func (fb *fileContext) ensureImport(importPath string) {
